@@ -70,6 +70,8 @@ def payload(size, salt=0):
 
 def build(sc):
     sim = vt.Sim(seed=sc.get("seed", 0))
+    if sc.get("_install"):
+        sc["_install"](sim)
     rng = random.Random(sc.get("seed", 0))
     dll = sc.get("dll", "j1939-21")
     cfg = {}
@@ -240,7 +242,7 @@ def run(sc):
                 sim.inject(n, s["id"], s["data"], fd=s.get("fd", False))
     sim.run(sc.get("dur", 2_000_000))
     sim.log({"ev": "end", "node": sc["nodes"][0]["name"]})
-    expect = {"all": False, "idle": False, "slack": 0, "dm": True,
+    expect = {"all": False, "idle": False, "slack": 0, "dm": True, "free": False,
               "bus": not (sc.get("drop") or sc.get("silence") or sc.get("hostile"))}
     expect.update(sc.get("expect", {}))
     sim.peer_objs = peers
